@@ -1171,7 +1171,11 @@ pub fn c06(em: &mut Emit, thorough: bool, seed: u64) {
         let len = *rng.pick(&lens);
         let mut e = ent(len);
         let nh = rng.usize(5);
-        let names = ["x-ent-a", "content-type", "x-ent-b", "x-ent-a", "content-language"];
+        let names = if i % 5 == 4 {
+            ["content-length", "content-range", "x-ent-b", "etag", "content-type"]
+        } else {
+            ["x-ent-a", "content-type", "x-ent-b", "x-ent-a", "content-language"]
+        };
         e.headers = (0..nh)
             .map(|k| {
                 let vlen = *rng.pick(&[0usize, 1, 7, 60, 300]);
@@ -1484,6 +1488,7 @@ pub fn c12_serve(em: &mut Emit, thorough: bool, seed: u64) {
 
 pub fn c20_serve(em: &mut Emit, thorough: bool, seed: u64) {
     conversion_bodies(em);
+    crate::suites_fs::file_bodies_stay_terminated(em);
     for c in many_parts_cases() {
         run_case(em, &c, &pred_c20);
     }
